@@ -75,6 +75,9 @@ ReqOf(j) ==
   ELSE IF j.op = "swap"
     THEN [op |-> "cset", key |-> j.key, val |-> j.val, c |-> j.c,
           ver |-> IF HasVal(S.store, j.key) /\ S.store[j.key].k = "cas" THEN S.store[j.key].n ELSE 0]
+  ELSE IF j.op = "sub_async" THEN [op |-> "sub", tid |-> j.tid, key |-> j.key, unique |-> j.unique, live |-> j.live, c |-> j.c]
+  ELSE IF j.op = "psub_async" THEN [op |-> "psub", tid |-> j.tid, pat |-> j.pat, unique |-> j.unique, live |-> j.live, c |-> j.c]
+  ELSE IF j.op = "subls_async" THEN [op |-> "subls", tid |-> j.tid, parent |-> j.parent, c |-> j.c]
   ELSE IF j.op = "unsub_async" THEN [op |-> "unsub", tid |-> j.tid, c |-> j.c]
   ELSE IF j.op = "unsubls_async"
     \* client lib.rs:2200-2204 sends `unsubscribe` for it  [D_UNSUBLS_ASYNC]
